@@ -47,18 +47,40 @@ func (c *rec) Write(b []byte) (int, error) {
 	return c.ResponseRecorder.Write(b)
 }
 
+// fault: storage fault injected for one request (refstore FaultAt / FaultMethod / FaultKind)
+type fault struct {
+	at     int
+	method string
+	kind   string
+}
+
+func (f fault) tag() string {
+	switch {
+	case f.at != 0:
+		return "fault=at"
+	case f.method != "":
+		return "fault=method"
+	}
+	return "fault=none"
+}
+
 type result struct {
+	hit                   bool
 	panic                 string
 	writes, status, first int
 	before, atFirst, end  int
 	body                  string
 }
 
-func do(h http.Handler, req *http.Request, st *refstore.Store) result {
+func do(h http.Handler, req *http.Request, st *refstore.Store, flt fault) result {
 	rc := &rec{ResponseRecorder: httptest.NewRecorder(), st: st}
+	st.ResetJournal()
+	st.FaultAt, st.FaultMethod, st.FaultKind = flt.at, flt.method, flt.kind
 	out := result{before: st.Calls()}
 	out.panic = drv.Catch(func() { h.ServeHTTP(rc, req) })
 	out.end = st.Calls()
+	out.hit = st.FaultHit
+	st.FaultAt, st.FaultMethod, st.FaultKind = 0, "", ""
 	out.writes, out.first, out.atFirst = rc.writes, rc.first, rc.callsAtFirst
 	out.status = rc.Code
 	out.body = rc.Body.String()
@@ -118,6 +140,9 @@ func (x result) outcome() string {
 	}
 	if x.end == x.before { // storage never asked: refused by the pre-checks
 		return emit.Ctor("OResp", emit.Nat(x.status), errcode(x.body))
+	}
+	if x.hit && x.status >= 400 { // the injected storage failure was answered with an error
+		return "OFault"
 	}
 	return "OGrant"
 }
@@ -198,6 +223,7 @@ var entries = []string{"ViaProvider", "ViaLegacy", "Direct"}
 type shape struct {
 	entry, ep, basic int
 	formOK, key, cid bool
+	fault            bool
 }
 
 func allShapes() []shape {
@@ -208,8 +234,8 @@ func allShapes() []shape {
 				continue
 			}
 			for b := range basics {
-				for m := 0; m < 8; m++ {
-					out = append(out, shape{e, ep, b, m&1 == 0, m&2 == 0, m&4 == 0})
+				for m := 0; m < 16; m++ {
+					out = append(out, shape{e, ep, b, m&1 == 0, m&2 == 0, m&4 == 0, m&8 != 0})
 				}
 			}
 		}
@@ -295,7 +321,7 @@ func handlerCases(w *emit.Writer, g *gen, n int, all bool) {
 	// regression shapes of F03 first: Basic credentials with a bad escape on the five grant handlers
 	var order []shape
 	for ep := 0; ep < 5; ep++ {
-		order = append(order, shape{0, ep, 2, true, true, false}, shape{2, ep, 3, true, true, false}, shape{2, ep, 0, false, true, false})
+		order = append(order, shape{0, ep, 2, true, true, false, false}, shape{2, ep, 3, true, true, false, false}, shape{2, ep, 0, false, true, false, false})
 	}
 	nf03 := len(order)
 	if all {
@@ -318,16 +344,81 @@ func handlerCases(w *emit.Writer, g *gen, n int, all bool) {
 		default:
 			h = direct(f, s.ep)
 		}
-		res := do(h, req, st)
+		flt := fault{}
+		if s.fault {
+			flt = fault{at: 1, kind: drv.Pick(r, []string{"error", "deadline"})}
+		}
+		res := do(h, req, st, flt)
 		tags := []string{"kind=handler", "entry=" + entries[s.entry], "endpoint=" + endpoints[s.ep].name, "basic=" + basics[s.basic],
-			fmt.Sprintf("form_ok=%v", s.formOK)}
+			fmt.Sprintf("form_ok=%v", s.formOK), flt.tag()}
 		if i < nf03 {
 			tags = append(tags, "f=F03")
 		}
-		in := fmt.Sprintf("(IHandler {| sh_entry := %s; sh_ep := %s; sh_form_ok := %s; sh_basic := %s; sh_key := %s; sh_client_id := %s |})",
-			entries[s.entry], endpoints[s.ep].name, emit.Bool(s.formOK), basics[s.basic], emit.Bool(s.key), emit.Bool(s.cid))
+		in := fmt.Sprintf("(IHandler {| sh_entry := %s; sh_ep := %s; sh_form_ok := %s; sh_basic := %s; sh_key := %s; sh_client_id := %s; sh_fault := %s |})",
+			entries[s.entry], endpoints[s.ep].name, emit.Bool(s.formOK), basics[s.basic], emit.Bool(s.key), emit.Bool(s.cid), emit.Bool(s.fault))
 		w.Add(emit.Case{Input: in, Observed: emit.Ctor("OHandler", res.outcome()), Tags: tags,
 			Human: map[string]any{"authorization": req.Header.Get("Authorization"), "status": res.status, "body": short([]byte(res.body)),
-				"panic": res.panic, "writes": res.writes, "storage_calls": res.end - res.before}})
+				"panic": res.panic, "writes": res.writes, "storage_calls": res.end - res.before, "fault_kind": flt.kind, "fault_hit": res.hit}})
+	}
+}
+
+// ---- storage-error exits of valid authenticated requests (IExit) ----
+
+var xeps = []string{"XRevokeRT", "XRevokeAT", "XIntrospect", "XUserinfo"}
+
+func exitCases(w *emit.Writer, g *gen, n int) {
+	r := g.r
+	st := opfix.NewStd()
+	f, err := opfix.New(st, opfix.Options{})
+	if err != nil {
+		panic(err)
+	}
+	for i := 0; i < n; i++ {
+		rt := opfix.Router(i % 2)
+		x := i / 2 % len(xeps)
+		k := r.IntN(6)
+		if i < 4 { // the seeded regression: GetRefreshTokenInfo fails with a backend fault
+			x, k = 0, 2+int(rt)
+		}
+		l := flow(f, st, rt, "web", "web-secret", true)
+		var req *http.Request
+		post := func(path string, ps []pair) *http.Request {
+			q := httptest.NewRequest(http.MethodPost, opfix.Issuer+path, strings.NewReader(encode(ps)))
+			q.Header.Set("Content-Type", "application/x-www-form-urlencoded")
+			q.Header.Set("Authorization", basicHeader("web", "web-secret"))
+			return q
+		}
+		switch xeps[x] {
+		case "XRevokeRT":
+			ps := []pair{{k: "token", v: l.rt}}
+			if r.Bool() {
+				ps = append(ps, pair{k: "token_type_hint", v: drv.Pick(r, []string{"refresh_token", "something"})})
+			}
+			req = post("/revoke", ps)
+		case "XRevokeAT":
+			req = post("/revoke", []pair{{k: "token", v: l.at}, {k: "token_type_hint", v: "access_token"}})
+		case "XIntrospect":
+			req = post("/oauth/introspect", []pair{{k: "token", v: l.at}})
+		default:
+			req = httptest.NewRequest(http.MethodGet, opfix.Issuer+"/userinfo", nil)
+			req.Header.Set("Authorization", "Bearer "+l.at)
+		}
+		flt := fault{at: k, kind: drv.Pick(r, []string{"error", "deadline"})}
+		res := do(f.Handlers[rt], req, st, flt)
+		entry := "ViaProvider"
+		if rt == opfix.Legacy {
+			entry = "ViaLegacy"
+		}
+		tags := []string{"kind=exit", "router=" + rt.String(), "exit=" + xeps[x], fmt.Sprintf("fault_at=%d", k), "fault_kind=" + flt.kind}
+		if i < 4 {
+			tags = append(tags, "f=revoke-rti")
+		}
+		w.Add(emit.Case{
+			Input:    fmt.Sprintf("(IExit {| x_entry := %s; x_ep := %s; x_fault := %d |})", entry, xeps[x], k),
+			Observed: emit.Ctor("OHandler", res.outcome()),
+			Tags:     tags,
+			Human: map[string]any{"status": res.status, "body": short([]byte(res.body)), "panic": res.panic, "writes": res.writes,
+				"journal": st.JournalCopy(), "fault_hit": res.hit, "calls_after_first_write": res.end - res.atFirst},
+		})
 	}
 }
